@@ -207,33 +207,37 @@ pub struct ReaderStats {
     pub pointers_with_arguments: usize,
     /// client fields selected without an argument for a variable their reader uses
     pub resolvers_omitting_a_variable: usize,
+    /// ... where the reader uses that variable inside an object-valued argument
+    pub resolvers_omitting_a_variable_used_in_object: usize,
     pub fields_with_arguments: usize,
     pub variable_arguments: usize,
 }
 
 /// Variable names used in the arguments of the nodes of a reader AST (not descending into the
 /// readers of nested client fields, which get their own variable map).
-fn variables_used(ast: &Value, out: &mut Vec<String>) {
-    fn in_args(a: &Value, out: &mut Vec<String>) {
+fn variables_used(ast: &Value, out: &mut Vec<String>, only_in_objects: bool) {
+    fn in_args(a: &Value, out: &mut Vec<String>, inside_object: bool, only_in_objects: bool) {
         for pair in a.as_array().into_iter().flatten() {
             let v = &pair[1];
             if v["kind"] == "Variable" {
                 if let Some(n) = v["name"].as_str() {
-                    out.push(n.to_string());
+                    if inside_object || !only_in_objects {
+                        out.push(n.to_string());
+                    }
                 }
             } else if v["kind"] == "Object" {
-                in_args(&v["value"], out);
+                in_args(&v["value"], out, true, only_in_objects);
             }
         }
     }
     for n in ast.as_array().into_iter().flatten() {
-        in_args(&n["arguments"], out);
-        in_args(&n["queryArguments"], out);
+        in_args(&n["arguments"], out, false, only_in_objects);
+        in_args(&n["queryArguments"], out, false, only_in_objects);
         if n["kind"] == "Linked" {
-            variables_used(&n["selections"], out);
+            variables_used(&n["selections"], out, only_in_objects);
             // conditions (asX, pointers) are read with the same variables by the runtime
             if n["condition"].is_object() {
-                variables_used(&n["condition"]["readerAst"], out);
+                variables_used(&n["condition"]["readerAst"], out, only_in_objects);
             }
         }
     }
@@ -280,10 +284,15 @@ pub fn reader_stats(ast: &Value) -> ReaderStats {
                         s.resolver_with_arguments += 1;
                     }
                     let mut used = vec![];
-                    variables_used(&n["readerArtifact"]["readerAst"], &mut used);
+                    variables_used(&n["readerArtifact"]["readerAst"], &mut used, false);
                     let passed: Vec<&str> = n["arguments"].as_array().into_iter().flatten().filter_map(|p| p[0].as_str()).collect();
                     if used.iter().any(|u| !passed.contains(&u.as_str())) {
                         s.resolvers_omitting_a_variable += 1;
+                    }
+                    let mut used_in_objects = vec![];
+                    variables_used(&n["readerArtifact"]["readerAst"], &mut used_in_objects, true);
+                    if used_in_objects.iter().any(|u| !passed.contains(&u.as_str())) {
+                        s.resolvers_omitting_a_variable_used_in_object += 1;
                     }
                     walk(&n["readerArtifact"]["readerAst"], depth + 1, s);
                 }
